@@ -1,5 +1,6 @@
-import CfrVerif.Proofs.Rate
-import CfrVerif.Proofs.Frontier
+import CfrVerif.Proofs.RateSolve
+import CfrVerif.Props.C06
+import CfrVerif.Props.C05
 /-!
 # C03 — the unsampled solve converges at the CFR rate on every game  (first sentence)
 
@@ -23,8 +24,8 @@ theorem full_vanilla_rate (g : Game ℝ) (hg : GameWF g) (lo hi : ℝ) (hpay : P
     RateOK (hi - lo) g.p1.length A (solveVanillaSingle g false RegretParams.vanilla draw T thr).iters
       (solveVanillaSingle g false RegretParams.vanilla draw T thr).regOne ∧
     RateOK (hi - lo) g.p2.length A (solveVanillaSingle g false RegretParams.vanilla draw T thr).iters
-      (solveVanillaSingle g false RegretParams.vanilla draw T thr).regTwo := by
-  sorry
+      (solveVanillaSingle g false RegretParams.vanilla draw T thr).regTwo :=
+  vanilla_rate g hg lo hi hpay A hA false draw (by intro h; cases h) T thr
 
 /-- every thread count -/
 theorem full_vanilla_rate_multi (sched : Sched ℝ) (hs : sched.Fair) (g : Game ℝ) (hg : GameWF g)
@@ -36,12 +37,56 @@ theorem full_vanilla_rate_multi (sched : Sched ℝ) (hs : sched.Fair) (g : Game 
     RateOK (hi - lo) g.p2.length A
       (solveVanillaMultiS sched g false RegretParams.vanilla draw T thr target).iters
       (solveVanillaMultiS sched g false RegretParams.vanilla draw T thr target).regTwo := by
-  sorry
+  rw [full_multi_eq_single sched hs]
+  exact full_vanilla_rate g hg lo hi hpay A hA draw T thr
 
 /-- the rate in the property's own constants: `N` = all decision infosets of both players -/
 theorem rateOK_total (D : ℝ) (hD : 0 ≤ D) (n N A iters : Nat) (hn : n ≤ N) (b : ℝ)
     (h : RateOK D n A iters (.fin b)) :
     b ≤ 2 * D * N * Real.sqrt A / Real.sqrt iters := by
-  sorry
+  simp only [RateOK] at h
+  refine le_trans h ?_
+  have hnN : (n : ℝ) ≤ N := by exact_mod_cast hn
+  apply div_le_div_of_nonneg_right _ (Real.sqrt_nonneg _)
+  apply mul_le_mul_of_nonneg_right _ (Real.sqrt_nonneg _)
+  exact mul_le_mul_of_nonneg_left hnN (mul_nonneg (by norm_num) hD)
+
+/-! ## the hypotheses are satisfiable (non-vacuity) -/
+
+theorem C05.tinyGame_payIn : PayIn (-1) 1 C05.tinyGame.root := by
+  simp only [C05.tinyGame, PayIn, PayInL]
+  norm_num
+
+theorem C05.tinyGame_actsLe : ActsLe C05.tinyGame 2 := by
+  intro me e he
+  cases me <;> simp only [C05.tinyGame, Game.infos, if_true, Bool.false_eq_true, if_false,
+    List.mem_singleton] at he <;> subst he <;> simp
+
+/-- the rate theorem applies to a concrete game (one infoset per player, two actions, payoffs in
+`[-1, 1]`): for every oracle, budget, threshold, schedule and task target both returned bounds are
+at most `2·2·1·√2/√iters` -/
+example (sched : Sched ℝ) (hs : sched.Fair) (draw : DrawFn ℝ) (T : ℕ) (thr : Option (Ext ℝ))
+    (target : ℕ) :
+    RateOK (1 - -1) 1 2
+      (solveVanillaMultiS sched C05.tinyGame false RegretParams.vanilla draw T thr target).iters
+      (solveVanillaMultiS sched C05.tinyGame false RegretParams.vanilla draw T thr target).regOne ∧
+    RateOK (1 - -1) 1 2
+      (solveVanillaMultiS sched C05.tinyGame false RegretParams.vanilla draw T thr target).iters
+      (solveVanillaMultiS sched C05.tinyGame false RegretParams.vanilla draw T thr target).regTwo :=
+  full_vanilla_rate_multi sched hs C05.tinyGame C05.tinyGame_wf (-1) 1 C05.tinyGame_payIn 2
+    C05.tinyGame_actsLe draw T thr target
+
+/-- `RateOK` is a real constraint: a finite bound above the rate violates it, and `+∞` is only
+allowed when no iteration ran -/
+example : ¬ RateOK 2 1 2 4 (.fin 3) ∧ ¬ RateOK 2 1 2 4 .posInf ∧ RateOK 2 1 2 0 .posInf := by
+  refine ⟨?_, by simp [RateOK], by simp [RateOK]⟩
+  simp only [RateOK, not_le]
+  have h4 : Real.sqrt ((4 : ℕ) : ℝ) = 2 := by
+    rw [show ((4 : ℕ) : ℝ) = 2 ^ 2 by norm_num, Real.sqrt_sq (by norm_num)]
+  have h2 : Real.sqrt ((2 : ℕ) : ℝ) < 3 / 2 := by
+    rw [Real.sqrt_lt' (by norm_num)]; norm_num
+  rw [h4]
+  norm_num
+  linarith
 
 end Cfr
